@@ -542,7 +542,14 @@ func c02Value(w *World, r *Report) {
 			}
 		case *ast.CallExpr:
 			if c := calleeOf(dp, x); c != nil && c.Name() == "PushPath" && len(x.Args) == 1 {
-				if inner, ok := x.Args[0].(*ast.CallExpr); ok {
+				arg := x.Args[0]
+				// a copy of the path is the same path for this rule (R06.8 asks for the copy)
+				if cp, ok := arg.(*ast.CallExpr); ok && len(cp.Args) == 0 {
+					if se, ok := cp.Fun.(*ast.SelectorExpr); ok && se.Sel.Name == "DeepCopy" {
+						arg = se.X
+					}
+				}
+				if inner, ok := arg.(*ast.CallExpr); ok {
 					if se, ok := inner.Fun.(*ast.SelectorExpr); ok && se.Sel.Name == "GetSdcpbPath" && lref != nil && objOfIdent(dp, se.X) == lref {
 						okD = true
 					}
